@@ -84,9 +84,23 @@ func (o *OracleC12) OnOut(n *Node, st *Step, out *Out) {
 		case dbft.ChangeViewType:
 			if cv, ok := out.P.Body.(*ChView); ok && cv.NewView > ob.v {
 				if st.Op == OpTx {
-					ob.answered = true // change view as the answer to the completed block
-					o.s.note("answered_by_change_view_on_last_transaction")
-					o.s.st.Exercised = true
+					// a change-view request is the answer only "if the completed block fails
+					// verification": the application's verification callback must have said
+					// no earlier in this very call
+					failed := false
+					for i := range st.Outs {
+						if x := &st.Outs[i]; (x.Kind == OVerifyBlock || x.Kind == OVerifyPreBlock) && !x.OK {
+							failed = true
+						}
+					}
+					if failed {
+						ob.answered = true
+						o.s.note("answered_by_change_view_on_last_transaction")
+						o.s.st.Exercised = true
+					} else {
+						ob.left = false
+						o.s.note("change_view_on_last_transaction_without_failed_verification")
+					}
 				} else {
 					ob.left = true
 				}
